@@ -132,17 +132,23 @@ class Impl(object):
     def pair_rows(self, strs, objs, group, codes=None):
         rows = []
         hashes = {i: hash(objs[i]) for i in group}
+        Sub = type('VersionSubclass', (self.V,), {})
         for i in group:
             a = objs[i]
-            rv, rs, h = [], [], []
+            rv, rs, rt, ru, h = [], [], [], [], []
             for j in group:
                 c = code6(a, objs[j])
                 if codes is not None:
                     codes[(i, j)] = c
                 rv.append(c)
                 rs.append(code6(a, strs[j]))
+                # a string object built for this one comparison and dropped at once (the next one may live at its address)
+                rt.append(code6(a, ''.join(list(strs[j]))))
+                # subclass instance on the right (even positions) or on the left (odd positions)
+                ru.append(code6(a, Sub(strs[j])) if (i + j) % 2 == 0 else code6(Sub(strs[i]), objs[j]))
                 h.append(1 if hashes[i] == hashes[j] else 0)
-            rows.append({'k': 'pairs', 'i': i + 1, 'js': [j + 1 for j in group], 'rv': rv, 'rs': rs, 'h': h})
+            rows.append({'k': 'pairs', 'i': i + 1, 'js': [j + 1 for j in group], 'rv': rv, 'rs': rs, 'rt': rt, 'ru': ru,
+                         'h': h})
         return rows
 
     def cache_targets(self):
